@@ -29,6 +29,10 @@
 (*   kids    the names of the children, per category, in order             *)
 (*   scopes  the scopes that are true (sorted)                             *)
 (*   lvl     number of embedded-object levels above the element            *)
+(*   hp      "Y": an EMBEDDED instance object that has its `path` attribute *)
+(*           set.  The path is not part of the embedded object (INSTANCE   *)
+(*           does not carry it, DSP0201 has no other form for an embedded  *)
+(*           instance) and is not compared; the object must still survive  *)
 (*                                                                         *)
 (* `Fails(st, e)` is the set of clauses of the property statement that the *)
 (* event violates.  Freedom the statement leaves is accepted:              *)
@@ -128,6 +132,10 @@ ClsDiag(o, g) ==
                           CountOf(o.cls[k], c) < CountOf(g.cls[k], c)}}
                 ELSE {} : k \in DOMAIN o.cls}}
 
+(* embedded instances that have a path (qualifies a parse failure)         *)
+EmbPathDiag(es) ==
+  {"diag.embpath." \o es[i].et : i \in {i \in DOMAIN es : es[i].hp = "Y"}}
+
 NullEntryDiag(es) ==
   {"diag.nullentry." \o es[i].et \o "." \o es[i].type :
       i \in {i \in DOMAIN es : "~" \in Rng(es[i].val) /\ es[i].emb = "N"
@@ -137,6 +145,7 @@ ObjFails(e) ==
   IF e.enc # "ok" THEN {"EncoderAccepts." \o e.enc}
   ELSE IF e.parse # "ok"
   THEN {"ParserAccepts." \o e.parse} \cup NullEntryDiag(e.orig)
+       \cup EmbPathDiag(e.orig)
   ELSE
   LET common == Paths(e.orig) \cap Paths(e.got)
       core == F("Names", /\ Paths(e.orig) = Paths(e.got)
@@ -212,11 +221,83 @@ Fails(st, e) ==
 (*                EMPTY array of embedded objects: "list" = [] (the code:  *)
 (*                `if val is None: return None` after the list branch);    *)
 (*                "null" = None (`if not val: return None` first)          *)
+(*   W.pathAttach when the parser gives the instance of VALUE.NAMEDINSTANCE *)
+(*                / VALUE.INSTANCEWITHPATH / VALUE.NAMEDOBJECT /            *)
+(*                VALUE.OBJECTWITH(LOCAL)PATH its path: "after" = the       *)
+(*                finished instance gets `instance.path = path` (the code); *)
+(*                "first" = CIMInstance(..., path=path) and the properties  *)
+(*                are added afterwards, so that CIMInstance.__setitem__     *)
+(*                propagates (deprecated behaviour) every property value    *)
+(*                into the same-named keybinding whose value differs        *)
+(*   W.embPath    how CIMProperty.tocimxml() / CIMParameter.tocimxml(       *)
+(*                as_value) write an embedded instance whose `path` is     *)
+(*                set: "kept" = v.tocimxml() (the pinned tree): the string *)
+(*                holds VALUE.NAMEDINSTANCE / VALUE.OBJECTWITHLOCALPATH /  *)
+(*                VALUE.INSTANCEWITHPATH, which parse_embeddedObject()     *)
+(*                refuses (CIMXMLParseError);  "ignored" = the bare        *)
+(*                INSTANCE (v.tocimxml(ignore_path=True), as               *)
+(*                WBEMConnection.InvokeMethod already does for its input   *)
+(*                parameters)                                              *)
 (***************************************************************************)
 WAsIs  == [x |-> AsIs, nullOk |-> FALSE, char16Kb |-> FALSE, boolPval |-> FALSE,
-           nullNode |-> "fresh", embEmpty |-> "list"]
+           nullNode |-> "fresh", embEmpty |-> "list", pathAttach |-> "after",
+           embPath |-> "kept"]
 WFixed == [x |-> CrFixed, nullOk |-> TRUE, char16Kb |-> TRUE, boolPval |-> TRUE,
-           nullNode |-> "fresh", embEmpty |-> "list"]
+           nullNode |-> "fresh", embEmpty |-> "list", pathAttach |-> "after",
+           embPath |-> "ignored"]
+
+(*------- the instance's own path and the same-named key property ---------*)
+(* An instance that is transmitted WITH its path carries every key twice:  *)
+(* as keybinding of the path and (usually) as property.  Nothing forces    *)
+(* the two to agree (key property changed locally while the path still     *)
+(* addresses the object in the server; values differing in lexical case;   *)
+(* a server returning another type) and the statement protects both: the   *)
+(* path components AND the property values come back as they were sent.    *)
+(* KeyRel is the case distinction the binding covers systematically, for   *)
+(* every keybinding type and every form of the path (no namespace /        *)
+(* namespace / namespace + host = three different CIM-XML elements):       *)
+(*   "none"   not a keybinding of the top-level instance's own path        *)
+(*   "free"   no property of that name                                     *)
+(*   "shape"  the same-named property is NULL or an array                  *)
+(*   "type"   ... is a scalar of another CIM type                          *)
+(*   "agree"  ... has the same type and the same value                     *)
+(*   "value"  ... has the same type and another value (the binding refines *)
+(*            strings into: another string / differing in lexical case     *)
+(*            only - names are caseless in pywbem, values are not)         *)
+(* Abstract values of different types are taken to differ; abstract string *)
+(* values (token "s:") are told apart by their class sequence.             *)
+OwnKeyPath(n)  == "/path/kb:" \o n \o "/"
+OwnPropPath(n) == "/prop:" \o n \o "/"
+IsOwnKey(el) == el.et = "kb" /\ el.path = OwnKeyPath(el.lname)
+KeyPropIx(els, el) == {j \in DOMAIN els : els[j].path = OwnPropPath(el.lname)}
+KeyPropOf(els, el) == els[CHOOSE j \in KeyPropIx(els, el) : TRUE]
+KeyRel(els, i) ==
+  LET k == els[i] IN
+  IF ~IsOwnKey(k) THEN "none"
+  ELSE IF KeyPropIx(els, k) = {} THEN "free"
+  ELSE LET p == KeyPropOf(els, k) IN
+       IF p.isnull \/ p.arr # "s" THEN "shape"
+       ELSE IF p.type # k.type THEN "type"
+       ELSE IF p.val = k.val /\ p.cls = k.cls THEN "agree" ELSE "value"
+KeyRels(els) == {KeyRel(els, i) : i \in DOMAIN els} \ {"none"}
+
+(* CIMInstance.__setitem__(key, value) on an instance that has a path:     *)
+(*   if key in self.path.keybindings and self.path[key] != prop.value:     *)
+(*       self.path[key] = prop.value                                       *)
+(* (the keybinding takes value, type and lexical case of the property)     *)
+PropagateKeys(els) ==
+  [i \in DOMAIN els |->
+     IF KeyRel(els, i) \in {"shape", "type", "value"}
+     THEN LET p == KeyPropOf(els, els[i])
+              k == els[i]
+              \* abstract trees: the token "s:" stands for the class sequence
+              \* (as in WireElem): another class sequence = another token
+              tok(j) == IF p.val[j] = "s:" /\ (j \notin DOMAIN k.cls \/ p.cls[j] # k.cls[j])
+                        THEN "s:changed" ELSE p.val[j]
+          IN [k EXCEPT !.name = p.name, !.type = p.type, !.arr = p.arr,
+                       !.isnull = p.isnull, !.vt = p.vt, !.cls = p.cls,
+                       !.val = [j \in DOMAIN p.val |-> tok(j)]]
+     ELSE els[i]]
 
 (*----------- array encoder: DOM child list of VALUE.ARRAY ----------------*)
 (* NULL multiplicity of an array value - the case distinction the binding  *)
@@ -280,6 +361,7 @@ WireElem(el, mode, W) ==
                         /\ ~el.isnull /\ el.val = <<>>
   IN [n1 EXCEPT !.cls = sel(newcls), !.val = sel(newval), !.vt = sel(newvt),
                 !.isnull = el.isnull \/ embEmptyAsNull,
+                !.hp = "N",       \* INSTANCE carries no path
                 !.type = IF el.et = "kb" /\ el.type = "char16" /\ ~W.char16Kb
                          THEN "string" ELSE el.type]
 
@@ -292,10 +374,19 @@ NullEntryFails(el, W) ==
   /\ el.type \notin {"string", "reference"}
   /\ el.et # "pval"            \* parameter values are typed by cimvalue()
 
+(* the embedded object string of the pinned tree holds the element that    *)
+(* combines path and INSTANCE; parse_embeddedObject() accepts INSTANCE and *)
+(* CLASS only                                                              *)
+EmbPathFails(el, W) ==
+  W.embPath = "kept" /\ el.et = "inst" /\ el.lvl > 0 /\ el.hp = "Y"
+
 ImplWire(els, mode, W) ==
   IF \E i \in DOMAIN els : NullEntryFails(els[i], W)
   THEN [parse |-> "AssertionError", got |-> <<>>]
-  ELSE [parse |-> "ok", got |-> [i \in DOMAIN els |-> WireElem(els[i], mode, W)]]
+  ELSE IF \E i \in DOMAIN els : EmbPathFails(els[i], W)
+  THEN [parse |-> "CIMXMLParseError", got |-> <<>>]
+  ELSE LET asm == IF W.pathAttach = "first" THEN PropagateKeys(els) ELSE els IN
+       [parse |-> "ok", got |-> [i \in DOMAIN els |-> WireElem(asm[i], mode, W)]]
 
 WireEvent(els, mode, W) ==
   LET w1 == ImplWire(els, mode, W)
@@ -325,8 +416,10 @@ Shape(el) == [el EXCEPT !.val = [k \in DOMAIN el.val |->
                                    IF IsStrEntry(el, k) THEN "s:" ELSE el.val[k]],
                         !.name = ""]
 AllW == {[x |-> xv, nullOk |-> a, char16Kb |-> b, boolPval |-> c,
-          nullNode |-> "fresh", embEmpty |-> "list"] :
-            xv \in {AsIs, CrFixed}, a \in BOOLEAN, b \in BOOLEAN, c \in BOOLEAN}
+          nullNode |-> "fresh", embEmpty |-> "list", pathAttach |-> "after",
+          embPath |-> ep] :
+            xv \in {AsIs, CrFixed}, a \in BOOLEAN, b \in BOOLEAN, c \in BOOLEAN,
+            ep \in {"kept", "ignored"}}
 ObjDrift(e) ==
   IF e.enc # "ok" THEN {}
   ELSE LET same(W) ==
